@@ -3,6 +3,9 @@
    or after the end of the list reads the terminating NUL (cur [] = 0).  Values are unbounded Z:
    the C code computes in int "with no checking for overflow"; IntParseProofs.v shows that every
    intermediate stays in the int range whenever the final value does (the negative accumulation).
+   The repaired code (fix: simple_atoi()/string_to_int()/no_sign_atoi() ... wrap in unsigned arithmetic)
+   accumulates in `unsigned` and converts at the end: the *_u definitions below are that code, with the
+   wrap-around explicit; IntParseProofs.v proves them equal to wrap32 of the unbounded value for EVERY string.
    No proofs in this file (it is extracted). *)
 From GV Require Export Base.Str.
 Local Open Scope Z_scope.
@@ -99,3 +102,47 @@ Definition simple_atoi_int (s : str) : option Z :=
   | Some n => chk (mult * n)
   | None => None
   end.
+
+(* ---- the repaired code: unsigned n; n = n * 10 + digit (mod 2^32); return (int)(negative ? 0u - n : n) *)
+Definition U32 : Z := 4294967296.
+Definition to_int32 (u : Z) : Z := if u <? 2147483648 then u else u - U32.
+Definition wrap32 (v : Z) : Z := to_int32 (v mod U32).
+
+Fixpoint sti_digits_u (unl : bool) (k : nat) (n : Z) (hd : bool) (s : str) : Z * bool * nat * str :=
+  match s with
+  | c :: t => if inlim unl k && g_is_digit c
+              then sti_digits_u unl (pred k) ((n * 10 + (c - 48)) mod U32) true t
+              else (n, hd, k, s)
+  | [] => (n, hd, k, [])
+  end.
+
+Definition string_to_int_u (s : str) (checked : bool) (len : nat) : option Z :=
+  let unl := (len =? 0)%nat in
+  let '(k1, s1) := sti_skip unl len s in
+  let '(negative, k2, s2) :=
+    if cur s1 =? 45 then (true, pred k1, adv s1)
+    else if cur s1 =? 43 then (false, pred k1, adv s1)
+    else (false, k1, s1) in
+  let '(n, hd, k3, s3) := sti_digits_u unl k2 0 false s2 in
+  let r := to_int32 (if negative then (0 - n) mod U32 else n) in
+  if checked then
+    let '(_, s4) := sti_skip unl k3 s3 in
+    if negb hd || negb (cur s4 =? 0) then None else Some r
+  else Some r.
+
+Fixpoint u32_digits (n : Z) (s : str) : Z * str :=
+  match s with
+  | c :: t => if g_is_digit c then u32_digits ((n * 10 + (c - 48)) mod U32) t else (n, s)
+  | [] => (n, [])
+  end.
+
+Definition simple_atoi_u (s : str) : Z * str :=
+  let s1 := skip_while g_is_space s in
+  let '(negative, s2) :=
+    if cur s1 =? 45 then (true, adv s1) else if cur s1 =? 43 then (false, adv s1) else (false, s1) in
+  let '(n, s3) := u32_digits 0 s2 in
+  (to_int32 (if negative then (0 - n) mod U32 else n), s3).
+
+Definition no_sign_atoi_u (s : str) : Z * str :=
+  let '(n, r) := u32_digits 0 (skip_while g_is_space s) in (to_int32 n, r).
+
